@@ -11,7 +11,7 @@ import (
 func init() { register("C16", checkC16) }
 
 func checkC16(r *Run) {
-	r.Explain = "Decides three narrow structural clauses of C16, and says plainly that rendering is not decided: A22 determinism — no map iteration order reaches the output: inside a range over a map nothing is written to a buffer or writer, and a slice filled in such a loop is sorted (sort.Strings / sort.Slice, possibly through a helper, whose comparator falls back to `<` on the two names) on every path before any other use; LEN on the success path ConsoleWriter.Write reports len(p) of the input (in the JSON build the decode hook is the identity); ONCE the field-collecting loop appends each non-excluded, non-part key exactly once per iteration, and the output loop ranges over all collected fields without early exit and writes each name exactly once."
+	r.Explain = "Decides three narrow structural clauses of C16, and says plainly that rendering is not decided: A22 determinism — no map iteration order reaches the output: inside a range over a map nothing is written to a buffer or writer, and a slice filled in such a loop is sorted (sort.Strings / sort.Slice, possibly through a helper, whose comparator falls back to `<` on the two names) on every path before any other use; LEN on the success path ConsoleWriter.Write reports len(p) of the input (in the JSON build the decode hook is the identity); LEN also: no return with a nil error skips writing the line; QUOTE the predicate choosing between verbatim and strconv.Quote rendering is a byte scan whose per-byte decision, evaluated over all 256 byte values from its branch conditions, is true exactly for control, non-ASCII, space, backslash and quote bytes, and its call site quotes on the true branch only; ONCE the field-collecting loop appends each non-excluded, non-part key exactly once per iteration, and the output loop ranges over all collected fields without early exit and writes each name exactly once."
 	r.NotDec = "Most of C16: value rendering, quoting (needsQuote / strconv.Quote), part formatting, the error-first move and the known disappearance of a field named \"\" when an error field is present (a sentinel collision that no non-brittle structural rule captures). These are value-level."
 	r.Assume = []string{"encoding/json decodes the event faithfully"}
 	p := r.Use("J")
@@ -21,8 +21,10 @@ func checkC16(r *Run) {
 	ruleA22(r, p, []string{"", "journald"})
 	ruleConsoleLen(r, p)
 	ruleConsoleOnce(r, p)
+	ruleConsoleQuote(r, p)
+	r.Floor("QUOTE", 4)
 	r.Floor("A22", 3)
-	r.Floor("LEN", 1)
+	r.Floor("LEN", 2)
 	r.Floor("ONCE", 3)
 }
 
@@ -332,6 +334,7 @@ func ruleConsoleLen(r *Run, p *Prog) {
 	}
 	n := 0
 	okAll := true
+	noLine := false
 	why := ""
 	for _, pa := range paths {
 		ret, isRet := pa.Exit.(*ssa.Return)
@@ -345,8 +348,14 @@ func ruleConsoleLen(r *Run, p *Prog) {
 				wrote = true
 			}
 		}
-		if !wrote {
+		errRes := pa.Resolve(ret.Results[1])
+		nilErr := isNilConst(errRes)
+		if !wrote && !nilErr {
 			continue
+		}
+		if !wrote {
+			// returns success without having written the line
+			noLine = true
 		}
 		n++
 		res := pa.Resolve(ret.Results[0])
@@ -368,6 +377,7 @@ func ruleConsoleLen(r *Run, p *Prog) {
 		}
 	}
 	r.Ob("LEN", FnName(w)+"/reports-input-length", p.Pos(w.Pos()), okAll && n > 0, true, tern(okAll && n > 0, "on success Write reports len(p) of its input", "on the success path Write reports "+why+" instead of the length of the bytes it was given: callers see a short write"))
+	r.Ob("LEN", FnName(w)+"/success-writes-line", p.Pos(w.Pos()), !noLine, true, tern(!noLine, "every return with a nil error has passed buf.WriteTo(w.Out)", "a path returns a nil error without writing the line to Out: the event is silently swallowed"))
 }
 
 // returnsItsParam: every return of f yields its first parameter (identity hook).
